@@ -254,6 +254,37 @@ def step (_ : Unit) (op impl : String) : Unit × String × String :=
           | _, _ => ("-", "viol:unparseable-output")
       | _, _, _, _, _, _, _ => ("bad-op", "ok")
     | "send" :: args => stepSend args impl
+    | ["recv", key, iv, mode, setting, mid, mseq, msgno, ts, from_, chid, chtype, payload] =>
+      match hexDecode key, hexDecode iv, setting.toNat?, mid.toInt?, mseq.toNat?, hexDecode msgno, ts.toInt?, hexDecode from_, hexDecode chid, chtype.toNat?, hexDecode payload with
+      | some key, some iv, some setting, some mid, some mseq, some msgno, some ts, some from_, some chid, some chtype, some payload =>
+        if key.length < 16 ∨ iv.length < 16 ∨ ¬ (mode == "c" ∨ mode == "k" ∨ mode == "n") ∨ ¬ (setting = 0 ∨ setting = 16) ∨ mseq ≥ 2 ^ 32 ∨ chtype > 255
+            ∨ mid < -(2 ^ 63 : Int) ∨ mid ≥ 2 ^ 63 ∨ ts < -(2 ^ 31 : Int) ∨ ts ≥ 2 ^ 31 then ("bad-op", "ok") else
+        let keys : SessionKeys := { aesKey := key, aesIV := iv }
+        let pkt : RecvPacket := { setting, messageID := mid, messageSeq := mseq, clientMsgNo := msgno, timestamp := ts, fromUID := from_,
+                                  channelID := chid, channelType := chtype, payload }
+        let sealed := mode != "n" && !noEncrypt setting
+        -- judge: the client opens what the gateway sealed; the key has the wire format
+        let v :=
+          if lookHex m "pl" != some payload then "viol:recv-roundtrip"
+          else if sealed then
+            (match lookHex m "mk" with
+             | some k => if k.length == 32 && k.all isLowerHex then "ok" else "viol:msgkey-format"
+             | none => "viol:unparseable-output")
+          else if lookHex m "mk" != some [] then "viol:unsealed-has-key" else "ok"
+        if !sealed then (s!"ok pl={hexEncode payload} mk=- enc={hexEncode payload}", v)
+        else if mode == "k" then ("-", v)
+        else
+          match lookHex m "ein", lookHex m "eout", aesBlockAndIV keys with
+          | some ein, some eout, .ok (_, iv16) =>
+            let P := prims (table ein eout) {}
+            match sealRecv P keys pkt with
+            | .ok s =>
+              let in1 := (cbcEncInputs (P.E []) iv16 (chunks (padBytes payload blockSize))).flatten
+              let in2 := (cbcEncInputs (P.E []) iv16 (chunks (padBytes (recvPreimage { pkt with payload := s.payload }) blockSize))).flatten
+              (s!"ok pl={hexEncode payload} mk={hexEncode s.msgKey} enc={hexEncode s.payload} ein={hexEncode (in1 ++ in2)} eout={hexEncode eout}", v)
+            | .error e => (e.str, v)
+          | _, _, _ => ("-", "viol:unparseable-output")
+      | _, _, _, _, _, _, _, _, _, _, _ => ("bad-op", "ok")
     | ["neg", priv, variant] =>
       match hexDecode priv, lookHex m "ckey", look m "dhok" with
       | some priv, some ckey, some dhok =>
